@@ -706,8 +706,139 @@ MESON_RAW: T.List[T.Tuple[str, str]] = [
 ]
 
 
+EMIT2 = """import sys
+# stdout (first half), then everything for stderr, then the rest of stdout: a merged pipe would splice stderr in
+with open(sys.argv[1], 'rb') as f:
+    out = f.read()
+with open(sys.argv[3], 'rb') as f:
+    err = f.read()
+cut = out.find(b'\\n', len(out) // 2) + 1
+sys.stdout.buffer.write(out[:cut])
+sys.stdout.buffer.flush()
+sys.stderr.buffer.write(err)
+sys.stderr.buffer.flush()
+sys.stdout.buffer.write(out[cut:])
+sys.stdout.buffer.flush()
+sys.exit(int(sys.argv[2]))
+"""
+
+# (name, stdout, stderr, exit status): the TAP stream is the program's stdout; TAP-looking text on stderr is not part of it
+GOOD_OUT = '1..2\nok 1 first\nok 2 second\n'
+MESON_STDERR: T.List[T.Tuple[str, str, str, int]] = [
+    ('err_notok', GOOD_OUT, 'not ok 3 this is stderr\n', 0),
+    ('err_secondplan', GOOD_OUT, '1..5\n', 0),
+    ('err_bailout', GOOD_OUT, 'Bail out! only on stderr\n', 0),
+    ('err_moretests', GOOD_OUT, 'ok 3\nok 4\n', 0),
+    ('err_todo_pass', GOOD_OUT, 'ok 1 # TODO passes on stderr\n', 0),
+    ('err_version', GOOD_OUT, 'TAP version 13\n', 0),
+    ('err_mixed_v13', 'TAP version 13\nok 1\n  ---\n  k: v\n  ...\nok 2\n1..2\n', 'not ok 1\nBail out!\n  ---\n', 0),
+    ('err_harmless', GOOD_OUT, 'warning: something harmless\n', 0),
+    ('err_harmless_fail', 'ok 1\nnot ok 2 really failed\n1..2\n', 'note: stdout says not ok\n', 0),
+    ('err_harmless_exit', GOOD_OUT, 'dying\n', 1),
+    ('err_notok_allskip', '1..1\nok 1 # SKIP nothing to do\n', 'not ok 1\n', 0),
+]
+STDERR_VARIANTS: T.List[T.List[str]] = [['--no-stdsplit'], ['--no-stdsplit', '--verbose'], ['--no-stdsplit', '--print-errorlogs'],
+                                        ['--verbose'], ['--print-errorlogs', '--num-processes', '1']]
+
+
+def _read_testlog(bdir: str, logbase: str) -> T.Dict[str, dict]:
+    results: T.Dict[str, dict] = {}
+    with open(os.path.join(bdir, 'meson-logs', logbase + '.json'), encoding='utf-8') as f:
+        for line in f:
+            j = json.loads(line)
+            results[j['name'].split(':', 1)[-1].strip()] = j
+    return results
+
+
+def _invoke(job: T.Tuple[str, str, str, T.List[str]]) -> dict:
+    """one `meson test` invocation (own log files) -> plain data"""
+    src, bdir, logbase, args = job
+    r = runner.meson(['test', '--no-rebuild', '-C', bdir, '--logbase', logbase] + args, cwd=src, timeout=180)
+    out: dict = {'logbase': logbase, 'args': args, 'rc': r.rc, 'timed_out': r.timed_out, 'traceback': r.traceback, 'brief': r.brief(),
+                 'results': None, 'error': None}
+    try:
+        out['results'] = {k: {'result': v.get('result'), 'returncode': v.get('returncode')} for k, v in _read_testlog(bdir, logbase).items()}
+    except (OSError, ValueError) as e:
+        out['error'] = str(e)
+    return out
+
+
+def _judge(chk: common.Check, inv: dict, cases: T.Dict[str, dict], label: str) -> None:
+    """every test of one invocation against reftap (stdout + exit status only), then the invocation's own exit status"""
+    if inv['timed_out'] or inv['traceback']:
+        chk.violation('meson-test-crashed' if inv['traceback'] else 'meson-test-watchdog',
+                      {'phase': 'meson-test', 'invocation': inv['args'], 'run': inv['brief']})
+        return
+    if inv['results'] is None:
+        chk.inconclusive_case('no-testlog')
+        chk.notes['meson_test:' + label] = {'error': inv['error'], **inv['brief']}
+        return
+    expect_any_bad = False
+    decided = True
+    for tn, j in sorted(inv['results'].items()):
+        c = cases.get(tn)
+        if c is None:
+            chk.violation('meson-test-unknown-result', {'phase': 'meson-test', 'test': tn, 'invocation': inv['args']})
+            continue
+        lines, rc = c['lines'], c['rc']
+        chk.count('monitor:meson-test-verdict')
+        if any(not l.strip('\r\n') for l in lines[:-1]):
+            chk.count('observed:meson-test:stream-with-empty-line-before-more')
+        if c.get('stderr'):
+            chk.count('observed:meson-test:tap-like-or-other-stderr' + (':no-stdsplit' if '--no-stdsplit' in inv['args'] else ''))
+        chk.case(f'meson:{label}:{tn}')
+        ref = reftap.consume(lines)
+        if ref.ambiguous:
+            chk.count('meson-test-sample-ambiguous')
+            decided = False
+            continue
+        expect_bad = ref.expect_bad(rc)
+        expect_any_bad = expect_any_bad or expect_bad
+        got_bad = j['result'] in BAD_RESULT_VALUES
+        if j.get('returncode') != rc:
+            chk.violation('meson-test-returncode-differs', {'phase': 'meson-test', 'test': tn, 'got': j.get('returncode'), 'rc': rc})
+        if got_bad != expect_bad:
+            decided = False     # the exit status then follows a wrong verdict; that one is what gets reported
+            mech = 'meson-test-verdict:' + ('bad-run-reported-' if expect_bad else 'good-run-reported-') + str(j['result'])
+            acc = Acc()
+            fs = check_stream(acc, 'meson-test', lines)
+            mechs = {m for m, _ in fs}
+            if rc == 0 and len(mechs) == 1 and expect_bad:
+                mech = mechs.pop()      # a parser defect that is already classified explains the verdict
+            else:
+                check_pipeline(acc, 'meson-test', ''.join(lines), rc)
+                pm = sorted(m for m in acc.found if m.startswith('pipeline-'))
+                if pm:
+                    mech += '(' + pm[0] + ')'
+                elif c.get('stderr'):
+                    mech += '(stderr-text-changes-verdict' + (':' + '+'.join(a for a in inv['args'] if a.startswith('--') and
+                                                                             a not in ('--num-processes', '--suite')) if label != 'all' else '') + ')'
+            chk.violation(mech, {'phase': 'meson-test', 'test': tn, 'invocation': inv['args'], 'lines': clip_lines(lines), 'rc': rc,
+                                 'stderr': c.get('stderr'), 'reported': j['result'], 'expected_bad': expect_bad, 'reference': ref.summary()})
+    for tn in c_selected(inv, cases):
+        if tn not in inv['results']:
+            chk.violation('meson-test-result-missing', {'phase': 'meson-test', 'test': tn, 'invocation': inv['args']})
+            decided = False
+    # the exit status of `meson test` itself: non-zero iff some test of this invocation is bad
+    if decided:
+        chk.count('monitor:meson-test-exit-status')
+        chk.count('observed:meson-test-exit:' + ('some-bad' if expect_any_bad else 'all-good'))
+        if (inv['rc'] != 0) != expect_any_bad:
+            kinds = sorted({j['result'] for j in inv['results'].values() if j['result'] in BAD_RESULT_VALUES})
+            chk.violation('meson-test-exit-status:' + (f'exit-0-with-bad-tests({"+".join(kinds)})' if expect_any_bad else
+                                                       f'exit-{inv["rc"]}-with-only-good-tests'),
+                          {'phase': 'meson-test', 'invocation': inv['args'], 'exit': inv['rc'],
+                           'results': {k: v['result'] for k, v in inv['results'].items()}, 'run': inv['brief']})
+
+
+def c_selected(inv: dict, cases: T.Dict[str, dict]) -> T.List[str]:
+    sel = inv.get('selected')
+    return list(cases) if sel is None else sel
+
+
 def meson_sample(chk: common.Check) -> None:
-    """A dozen streams x 2 exit codes through a real `meson test` with protocol: 'tap'."""
+    """Streams x exit codes through real `meson test` invocations (protocol: 'tap'): one with everything, the stderr
+    suite under several option sets, and small invocations whose only bad tests are of one error kind."""
     runner.preload()
     d = common.scratch_dir('c18')
     src = os.path.join(d, 'src')
@@ -733,16 +864,24 @@ def meson_sample(chk: common.Check) -> None:
         if not reftap.consume(lines).ambiguous:
             sample.append((f'randomblank{nblank}', lines))
             nblank += 1
-    files: T.Dict[str, T.Union[str, bytes]] = {'emit.py': EMIT}
-    mb = ["project('c18tap', meson_version: '>=1.0')", "py = find_program('/venv/bin/python')", "emit = files('emit.py')"]
-    cases: T.Dict[str, T.Tuple[T.List[str], int]] = {}
+    files: T.Dict[str, T.Union[str, bytes]] = {'emit.py': EMIT, 'emit2.py': EMIT2}
+    mb = ["project('c18tap', meson_version: '>=1.0')", "py = find_program('/venv/bin/python')", "emit = files('emit.py')",
+          "emit2 = files('emit2.py')"]
+    cases: T.Dict[str, dict] = {}
     texts: T.List[T.Tuple[str, str]] = [(nm, ''.join(l + '\n' for l in lines)) for nm, lines in sample] + MESON_RAW
     for i, (nm, text) in enumerate(texts):
         files[f's{i:02d}.tap'] = text.encode('utf-8')
         for rc in (0, 3 if i % 2 else 1):
             tn = f's{i:02d}_{nm}_rc{rc}'
-            cases[tn] = (split_stdout(text), rc)
-            mb.append(f"test('{tn}', py, args: [emit, files('s{i:02d}.tap'), '{rc}'], protocol: 'tap')")
+            cases[tn] = {'lines': split_stdout(text), 'rc': rc}
+            mb.append(f"test('{tn}', py, args: [emit, files('s{i:02d}.tap'), '{rc}'], protocol: 'tap', suite: 'streams')")
+    stderr_names: T.List[str] = []
+    for i, (nm, out, err, rc) in enumerate(MESON_STDERR):
+        files[f'e{i:02d}.out'] = out.encode('utf-8')
+        files[f'e{i:02d}.err'] = err.encode('utf-8')
+        cases[nm] = {'lines': split_stdout(out), 'rc': rc, 'stderr': err}
+        stderr_names.append(nm)
+        mb.append(f"test('{nm}', py, args: [emit2, files('e{i:02d}.out'), '{rc}', files('e{i:02d}.err')], protocol: 'tap', suite: 'stderr')")
     files['meson.build'] = '\n'.join(mb) + '\n'
     runner.write_tree(src, files)
     r = runner.meson(['setup', bdir], cwd=src, timeout=120)
@@ -750,60 +889,36 @@ def meson_sample(chk: common.Check) -> None:
         chk.inconclusive_case('meson-setup-failed')
         chk.notes['meson_setup'] = r.brief()
         return
-    r = runner.meson(['test', '--no-rebuild', '-C', bdir, '--num-processes', '4'], cwd=src, timeout=180)
-    if r.timed_out or r.traceback:
-        chk.violation('meson-test-crashed' if r.traceback else 'meson-test-watchdog', {'phase': 'meson-test', 'run': r.brief()})
-        return
-    results: T.Dict[str, dict] = {}
-    try:
-        with open(os.path.join(bdir, 'meson-logs', 'testlog.json'), encoding='utf-8') as f:
-            for line in f:
-                j = json.loads(line)
-                results[j['name'].split(':', 1)[-1].strip()] = j
-    except (OSError, ValueError) as e:
-        chk.inconclusive_case('no-testlog')
-        chk.notes['meson_test'] = {'error': str(e), **r.brief()}
-        return
-    any_bad = False
-    for tn, (lines, rc) in sorted(cases.items()):
-        j = results.get(tn)
-        if j is None:
-            chk.violation('meson-test-result-missing', {'phase': 'meson-test', 'test': tn, 'lines': clip_lines(lines), 'rc': rc})
-            continue
-        chk.count('monitor:meson-test-verdict')
-        if any(not l.strip('\r\n') for l in lines[:-1]):
-            chk.count('observed:meson-test:stream-with-empty-line-before-more')
-        chk.case('meson:' + tn)
-        ref = reftap.consume(lines)
-        if ref.ambiguous:
-            chk.count('meson-test-sample-ambiguous')
-            continue
-        expect_bad = ref.expect_bad(rc)
-        got_bad = j['result'] in BAD_RESULT_VALUES
-        any_bad = any_bad or got_bad
-        if j.get('returncode') != rc:
-            chk.violation('meson-test-returncode-differs', {'phase': 'meson-test', 'test': tn, 'got': j.get('returncode'), 'rc': rc})
-        if got_bad != expect_bad:
-            mech = 'meson-test-verdict:' + ('bad-run-reported-' if expect_bad else 'good-run-reported-') + j['result']
-            # a parser defect that is already classified explains the verdict: report it under that mechanism
-            acc = Acc()
-            fs = check_stream(acc, 'meson-test', lines)
-            mechs = {m for m, _ in fs}
-            if rc == 0 and len(mechs) == 1 and expect_bad:
-                mech = mechs.pop()
-            else:
-                # does the harness-side pipeline (reader -> queue -> parser) explain it?
-                check_pipeline(acc, 'meson-test', ''.join(lines), rc)
-                pm = sorted(m for m in acc.found if m.startswith('pipeline-'))
-                if pm:
-                    mech += '(' + pm[0] + ')'
-            chk.violation(mech, {'phase': 'meson-test', 'test': tn, 'lines': clip_lines(lines), 'rc': rc, 'reported': j['result'],
-                                 'expected_bad': expect_bad, 'reference': ref.summary()})
-    # the exit status of `meson test` itself: 1 iff something bad was reported
-    chk.count('monitor:meson-test-exit-status')
-    if (r.rc != 0) != any_bad:
-        chk.violation('meson-test-exit-status', {'phase': 'meson-test', 'rc': r.rc, 'any_bad': any_bad, 'run': r.brief()})
-    chk.sample({'meson_test': {k: v['result'] for k, v in sorted(results.items())[:6]}})
+
+    # ---- the invocations ------------------------------------------------------------------------------------------
+    jobs: T.List[T.Tuple[str, str, T.Optional[T.List[str]], T.List[str]]] = [('all', 'all', None, ['--num-processes', '4'])]
+    for k, variant in enumerate(STDERR_VARIANTS):
+        jobs.append((f'stderr{k}', f'stderr{k}', stderr_names, variant + ['--suite', 'stderr']))
+    # small invocations: a few good tests plus bad tests of ONE kind (so that nothing else decides the exit status)
+    by_prefix = lambda frag, rc: [tn for tn in cases if frag in tn and tn.endswith(f'_rc{rc}')][:1]
+    good = by_prefix('_clean_', 0) + by_prefix('_allskip_', 0) + by_prefix('_unknownlines_', 0) + ['err_harmless']
+    only: T.List[T.Tuple[str, T.List[str]]] = [
+        ('good-only', []),
+        ('error-event-too-few', by_prefix('_toofew_', 0)),
+        ('error-event-yaml', by_prefix('_yamlopen_', 0)),
+        ('error-event-second-plan', by_prefix('_secondplan_', 0)),
+        ('bail-out', by_prefix('_bailout_', 0)),
+        ('nonzero-exit', by_prefix('_clean_', 1) + ['err_harmless_exit']),
+        ('skip-with-error', by_prefix('_skipwitherror_', 0)),
+        ('failed-subtest', by_prefix('_failed_', 0)),
+        ('unexpected-pass', by_prefix('_upass_', 0)),
+    ]
+    for k, (nm, bad) in enumerate(only):
+        jobs.append((f'only:{nm}', f'only{k}', good + bad, good + bad))
+    todo = [(src, bdir, logbase, args) for _, logbase, _, args in jobs]
+    invs = common.pmap(_invoke, todo, min(chk.jobs, 6))
+    for (label, _, selected, _), inv in zip(jobs, invs):
+        inv['selected'] = selected
+        _judge(chk, inv, cases, label)
+        chk.count('meson-test-invocations')
+    allinv = invs[0]
+    if allinv.get('results'):
+        chk.sample({'meson_test': {k: v['result'] for k, v in sorted(allinv['results'].items())[:6]}})
 
 
 # =====================================================================================================
@@ -1023,6 +1138,8 @@ def main() -> int:
                  ('monitor:parse_line-contract', 100), ('monitor:verdict-fold', 100), ('monitor:meson-test-verdict', 40),
                  ('monitor:pipeline-vs-direct', 1000), ('observed:pipeline:stream-with-empty-line', 100),
                  ('observed:meson-test:stream-with-empty-line-before-more', 20),
+                 ('observed:meson-test:tap-like-or-other-stderr:no-stdsplit', 20), ('monitor:meson-test-exit-status', 10),
+                 ('observed:meson-test-exit:all-good', 1), ('observed:meson-test-exit:some-bad', 8),
                  ('contract:complete.nonzero-exit-is-bad', 100), ('pinned-streams', len(PINNED)),
                  ('probe:' + KNOWN_COMPENSATING, 1), ('probe:' + KNOWN_DIGITS, 1), ('probe:' + KNOWN_BELOW_ONE, 1)):
         chk.require(m, n)
